@@ -40,10 +40,11 @@ const (
 	sTickP  // now = last receive + period + eps  (first tick after a full period)
 	sTickPP // now = last receive + 3*period
 	sTickPF // like tick+, but the ping cannot be sent (the write fails); KeepAlive object layer only
+	sPartial // some more bytes of a frame that never completes arrive (stream connections only): not a message
 	nSyms
 )
 
-var symNames = [...]string{"recv", "pong-current", "pong-stale", "tick-", "tick+", "tick++", "tick+(ping-unsendable)"}
+var symNames = [...]string{"recv", "pong-current", "pong-stale", "tick-", "tick+", "tick++", "tick+(ping-unsendable)", "bytes-of-an-incomplete-frame"}
 
 func str(s []sym) string {
 	var b bytes.Buffer
@@ -309,6 +310,8 @@ type tcpDriver struct {
 	handled  atomic.Int32
 	pingToks [][]byte
 	tok      uint16
+
+	partialStarted bool
 }
 
 func newTCPDriver(keepAlive bool, retries int, period time.Duration) (*tcpDriver, time.Time, time.Time, error) {
@@ -356,6 +359,19 @@ func (d *tcpDriver) recv(kind int) (time.Time, time.Time) {
 	return lo, time.Now()
 }
 
+// partial feeds the next bytes of a frame that is never completed: first the header of a GET announcing a 250-byte body,
+// then one body byte per call. The peer "keeps delivering bytes", but no message arrives.
+func (d *tcpDriver) partial() {
+	if !d.partialStarted {
+		d.partialStarted = true
+		d.sc.Feed([]byte{0xd1, 250 - 13, 0x01, 0x77}) // Len=13+ext, TKL=1, code GET, token
+	} else {
+		d.sc.Feed([]byte{0x41})
+	}
+	d.sc.WaitConsumed(10 * time.Second)
+	time.Sleep(200 * time.Microsecond)
+}
+
 func (d *tcpDriver) pings() int { d.scan(); return len(d.pingToks) }
 func (d *tcpDriver) pong(idx int) (time.Time, time.Time) {
 	d.scan()
@@ -389,6 +405,12 @@ func runConn(rec *vr.Rec, layer string, d connDriver, lo, hi time.Time, keepAliv
 			lo, hi = d.pong(d.pings() - 1)
 			u = 0
 			rec.Count("conn_pong_events", 1)
+		case sPartial:
+			// bytes, not a message: the period keeps running from the last received MESSAGE (lo/hi unchanged)
+			if pd, ok := d.(interface{ partial() }); ok {
+				pd.partial()
+				rec.Count("conn_partial_frame_events", 1)
+			}
 		case sPongS:
 			if !keepAlive || d.pings() < 2 {
 				continue
@@ -487,7 +509,7 @@ func enumerate(alpha []sym, maxLen int, visit func([]sym)) {
 }
 
 func TestRun(t *testing.T) {
-	rec := vr.New("C18", "event strings over {recv, pong-current, pong-stale, tick- (now = last receive + period - eps), tick+ (+ period + eps), tick++ (+ 3 periods)}: all strings up to a bound (Monitor object: <=7/9; KeepAlive object: <=7/9 x retries 0..3; real udp connection: <=5/6 x retries 0..2 and plain inactivity; real tcp connection: <=4/5) plus PRNG strings of 30..100 events; groups of R+2..R+6 connections created from ONE server/client configuration (one silent, one idle-but-answering, the rest PRNG strings) running concurrently; periods 10 s .. 10 min, eps = period/10 (>= 1 s, the wall-clock bracket of a receive stamp is microseconds wide). Distinct = distinct (layer, retries, event string).")
+	rec := vr.New("C18", "event strings over {recv, pong-current, pong-stale, tick- (now = last receive + period - eps), tick+ (+ period + eps), tick++ (+ 3 periods)}: all strings up to a bound (Monitor object: <=7/9; KeepAlive object: <=7/9 x retries 0..3; real udp connection: <=5/6 x retries 0..2 and plain inactivity; real tcp connection: <=4/5, plus strings with bytes of a never-completed frame arriving between ticks) plus PRNG strings of 30..100 events; groups of R+2..R+6 connections created from ONE server/client configuration (one silent, one idle-but-answering, the rest PRNG strings) running concurrently; periods 10 s .. 10 min, eps = period/10 (>= 1 s, the wall-clock bracket of a receive stamp is microseconds wide). Distinct = distinct (layer, retries, event string).")
 	defer rec.Flush(true)
 	seed := vr.Seed()
 	periods := []time.Duration{10 * time.Second, time.Minute, 10 * time.Minute}
@@ -532,6 +554,11 @@ func TestRun(t *testing.T) {
 		enumerate(all, vr.Scale(4, 5), func(s []sym) { jobs = append(jobs, job{"tcp", true, retries, s}) })
 	}
 	enumerate([]sym{sRecv, sTickM, sTickP}, vr.Scale(4, 6), func(s []sym) { jobs = append(jobs, job{"tcp", false, 0, s}) })
+	// a stream peer that trickles an endless frame: bytes keep arriving, messages do not
+	enumerate([]sym{sPartial, sTickM, sTickP}, vr.Scale(4, 6), func(s []sym) {
+		jobs = append(jobs, job{"tcp", false, 0, append([]sym{sRecv}, s...)})
+		jobs = append(jobs, job{"tcp", true, 1 + len(s)%2, append([]sym{sRecv}, s...)})
+	})
 	rnd := rand.New(rand.NewSource(seed))
 	for i := 0; i < vr.Scale(60, 3000); i++ {
 		s := make([]sym, 30+rnd.Intn(71))
